@@ -799,7 +799,15 @@ func Run(pl *Plan, logOn bool) (*verifh.Violation, *runInfo) {
 	fail := func(clause, op, witness, detail string) (*verifh.Violation, *runInfo) {
 		return &verifh.Violation{Property: prop, Clause: clause, Op: op, Witness: witness, Detail: detail}, info
 	}
-	e := &env{plan: pl, defH: baseDefH, defT: baseDefT, defHv: baseDefHv, defTv: baseDefTv}
+	// defaults as this run found them (like the registry: what this run's own calls
+	// change is attributed to this run and replays from its plan alone)
+	e := &env{plan: pl, defH: otp.DefaultHOTPParam, defT: otp.DefaultTOTPParam}
+	if e.defH != nil {
+		e.defHv = *e.defH
+	}
+	if e.defT != nil {
+		e.defTv = *e.defT
+	}
 	// registry as this run found it: only what this run's own calls change is
 	// attributed to it (and therefore replays from its plan alone)
 	startReg := takeRegistry()
@@ -999,8 +1007,8 @@ func Run(pl *Plan, logOn bool) (*verifh.Violation, *runInfo) {
 		if s := startReg.compare(); s != "" {
 			return fail("registry-unmodified", "registry", "registry-changed", s)
 		}
-		if otp.DefaultHOTPParam != baseDefH || otp.DefaultTOTPParam != baseDefT || *otp.DefaultHOTPParam != baseDefHv || *otp.DefaultTOTPParam != baseDefTv {
-			return fail("defaults-unmodified", "defaults", "default-param-changed", "DefaultHOTPParam/DefaultTOTPParam differ from process start")
+		if otp.DefaultHOTPParam != e.defH || otp.DefaultTOTPParam != e.defT || *otp.DefaultHOTPParam != e.defHv || *otp.DefaultTOTPParam != e.defTv {
+			return fail("defaults-unmodified", "defaults", "default-param-changed", "DefaultHOTPParam/DefaultTOTPParam differ from what they were when the run started")
 		}
 		// history independence: after scribbling over everything that was
 		// returned, the same calls executed alone still give the reference
